@@ -10,7 +10,8 @@ VARIABLES hist, done
 \* reduced alphabet for the exhaustive tier; the full one for simulation
 SmallFws == { FwCCTP(0, "MINT_A", "NONE"), FwCCTP(2, "MINT_A", "NONE"), FwHYP("T1", 1, "R_A"), FwHYP("T2", 2, "R_B"),
               FwINT("U"), FwINT("ORB"), FwINT("DUST"),
-              [FwHYP("T1", 1, "R_A") EXCEPT !.hook = "H_IGP", !.gas = 3, !.maxfee = 5, !.mfd = "ustake"] }
+              [FwHYP("T1", 1, "R_A") EXCEPT !.hook = "H_IGP", !.gas = 3, !.maxfee = 5, !.mfd = "ustake"],
+              [FwHYP("T1", 1, "R_A") EXCEPT !.maxfee = 5, !.mfd = "uusdc"] }
 SmallTransfers == { Xfer(0, b, 10000, fw, acts) : b \in {"uusdc", "ustake"}, fw \in SmallFws,
                     acts \in { <<>>, <<FeeAct(<<Fix(3, "F1"), Bps(5000, "F2")>>)>> } }
 SmallAlphabet == SmallTransfers \cup Others \cup NoOrbiterKey \cup Deposits \cup Admins \cup Envs \cup {ReimportIn}
